@@ -240,4 +240,53 @@ Section Proofs.
     intros [F W]. destruct (cmp k k1) eqn:E; try discriminate; auto.
     intros G. f_equal. auto.
   Qed.
+
+  Lemma Forall_put (P : K * V -> Prop) m k v : P (k, v) -> Forall P m -> Forall P (put m k v).
+  Proof.
+    intros Pk F. induction m as [|[k1 v1] m IH]; cbn [sm_put].
+    - constructor; auto.
+    - inversion F; subst. destruct (cmp k k1); constructor; auto.
+  Qed.
+
+  Lemma Forall_get (P : K * V -> Prop) m k v : Forall P m -> get m k = Some v -> P (k, v).
+  Proof. intros F G. rewrite Forall_forall in F. apply F. apply get_some_in. exact G. Qed.
+
+  Lemma in_get_iff m k v : wf m -> (In (k, v) m <-> get m k = Some v).
+  Proof. intros W. split; [apply in_get_some; auto|apply get_some_in]. Qed.
+
+  Lemma mem_put m k v k' : sm_mem cmp (put m k v) k' = match cmp k' k with Eq => true | _ => sm_mem cmp m k' end.
+  Proof. unfold sm_mem. rewrite get_put. destruct (cmp k' k); reflexivity. Qed.
+
+  Lemma mem_del m k k' : wf m -> sm_mem cmp (del m k) k' = match cmp k' k with Eq => false | _ => sm_mem cmp m k' end.
+  Proof. intros W. unfold sm_mem. rewrite get_del by exact W. destruct (cmp k' k); reflexivity. Qed.
 End Proofs.
+
+Lemma NoDup_app_intro {A} (l1 l2 : list A) :
+  NoDup l1 -> NoDup l2 -> (forall x, In x l1 -> ~ In x l2) -> NoDup (l1 ++ l2).
+Proof.
+  induction l1 as [|a l1 IH]; intros N1 N2 D; cbn [app]; auto.
+  inversion N1; subst. constructor.
+  - rewrite in_app_iff. intros [I|I]; [contradiction|]. apply (D a); [left; reflexivity|exact I].
+  - apply IH; auto. intros x I. apply D. right. exact I.
+Qed.
+
+(** a concatenation of tagged blocks with distinct tags has no duplicates *)
+Lemma NoDup_concat_tagged {A B T} (tag : B -> T) (f : A -> list B) (tg : A -> T) (m : list A) :
+  NoDup (map tg m) ->
+  (forall a, In a m -> NoDup (f a)) ->
+  (forall a e, In a m -> In e (f a) -> tag e = tg a) ->
+  NoDup (concat (map f m)).
+Proof.
+  induction m as [|a m IH]; intros N F T0; cbn [map concat]; [constructor|].
+  cbn [map] in N. inversion N; subst.
+  apply NoDup_app_intro.
+  - apply F. left. reflexivity.
+  - apply IH; auto.
+    + intros a' I. apply F. right. exact I.
+    + intros a' e I. apply T0. right. exact I.
+  - intros e I1 I2. apply in_concat in I2. destruct I2 as [l [Il Ie]].
+    apply in_map_iff in Il. destruct Il as [a' [<- Ia']].
+    apply H1. apply in_map_iff. exists a'. split; [|exact Ia'].
+    rewrite <- (T0 a e) by (try left; auto). symmetry. apply T0; [right; exact Ia'|exact Ie].
+Qed.
+
